@@ -69,6 +69,19 @@ CHECKS.update({
   design="DESIGN.md 3.8, 5 (C14)"),
 })
 
+CHECKS.update({
+ "C16": dict(engine="AsmCore",
+  technique="TLA+ spec AsmCore.tla (struct alphabet): .repeat = unrolling, .include = private inline, .end / .once / insert_file by definition, LinkIsConcatenation checked by TLC; three-way replay: program as written vs. harness-transformed variant (unrolled / insert as .byte / files concatenated) vs. predicted image",
+  text="Bounded-exhaustive conformance (all single-file programs <= 3 statements over 13 .repeat forms with '.', impure operators, hoisted index expressions, local-label branches, nesting, plus insert_file/.end/.once/.include; two-file programs exhaustively in thorough) with every accepted program also assembled in its unrolled / inlined / concatenated form against the same prediction.",
+  note="Trusted: TLC, AsmCore.tla, renderer and the three syntactic transformations in harness/checks/C16.py. Repeat counts are literals 0..3 in the exhaustive part.",
+  design="DESIGN.md 3.2, 5 (C16)"),
+ "C19": dict(engine="AsmCore",
+  technique="TLA+ spec AsmCore.tla (list alphabet, ListingOf/ListingSorted) and LstPath.tla model-checked by TLC; every accepted program's predicted per-file sorted listing compared line by line with Compiler.generate_listing(), and all LstPath selector scenarios run through the real CLI with --lst (path and content)",
+  text="Bounded-exhaustive conformance of listing content (programs <= 3/4 statements plus simulated 3-file programs with includes, negative / wide / equal values) and exhaustive conformance of the listing path rule over 51 output-selector scenarios through the real command line.",
+  note="Trusted: TLC, AsmCore.tla/LstPath.tla, renderer. Section order is not specified by the property and not compared; '-o' combined with a directive output is not generated (ambiguous 'first output').",
+  design="DESIGN.md 3.2, 5 (C19)"),
+})
+
 NOT_YET = {}
 
 
